@@ -59,6 +59,11 @@ CHECKS = {
          "Model checking of the transaction/lock design plus conformance of every call result, read value and change callback of real store histories with the map reference; a violation is a real call whose result, value or callbacks deviate, or two overlapping transactions on one id.",
          "Values are atoms; when two failure reasons coincide (wrong type on an existing/missing id, empty id) either error is accepted; mockstore is untyped.",
          "4.3 C11"),
+ "C12": ("crash", "fault_enumeration",
+         "TLA+ durability specification (ResDurable.tla: disk = fold of acknowledged calls, Init as one atomic seed+marker step; MCDurable.tla: start/commit/ack with Crash at every step and Reopen): TLC model-checks DurableInv/InitOnce/NeverHalfSeeded; a child process runs seeded workloads on a real BadgerDB, fsyncs an acknowledgement per successful call and is SIGKILLed at each instrumented kill point (7 hooks) at several occurrences or at random times; the parent reopens, reads back, re-runs Init, rebuilds and queries the indexes; each run is a record judged by TLC (TraceDurable: Durable, ReInitOK, rebuild)",
+         "Fault enumeration over instrumented crash points bound to a model-checked durability specification; a violation is a real post-crash database that is not a possible outcome of the acknowledged calls (plus the call in flight, fully or not at all), seeds duplicated/resurrected/half-written by a second Init, or an index that disagrees with the values after RebuildIndexes.",
+         "Crash = SIGKILL (page cache survives); crash points inside BadgerDB's commit path are only sampled by random-time kills.",
+         "4.3 C12"),
  "C13": ("storesim", "model_checking",
          "TLA+ index specification (ResIndex.tla: RefQuery = sorted, filtered, windowed scan; MCIndex.tla: mutation / index task take-commit-notify / Flush with the shipped and the sentinel design): TLC model-checks AfterFlush for all interleavings of the bound; on a real BadgerDB query store random mutation histories are followed by Flush and random queries (prefixes incl. NUL bytes, filter, offset, limit, direction), and Flush is raced against an index task held at the bs.idx.start hook; every query is a record judged by TLC (TraceIndex: got = RefQuery)",
          "Model checking of the Flush/index-task design plus conformance of real query results with the reference scan; a violation is a real query after a returned Flush whose result differs from the reference.",
